@@ -52,6 +52,8 @@ structure FieldD where
   desc : Option String := none
   /-- `field.resolver` as data (none: no resolver set) -/
   resolver : Option ResolverD := none
+  /-- `field.subscription_resolver` as data -/
+  subscriptionResolver : Option ResolverD := none
   deriving Repr, Inhabited, BEq
 
 structure EnumValD where
